@@ -399,8 +399,100 @@ def check_inherited_required(kind, o, key="x-id"):
         e2e.unload(mod)
 
 
+PLAIN = dict(strict=False, force=False, usedef=False, sdn=False, ua=False, fc=False, udk=False)
+
+
+def check_required_part(kind, key, with_base, placement):
+    """the member is declared in one place of an allOf composition and listed as required in another"""
+    decl = {"type": "object", "properties": {key: {"type": "integer"}, "other": {"type": "string"}}}
+    parts = [{"$ref": "#/definitions/Base"}] if with_base else []
+    child = {"type": "object"}
+    if placement == "separate-part":        # allOf: [.., {properties}, {required}]
+        parts += [decl, {"required": [key]}]
+    elif placement == "same-part":          # allOf: [.., {properties, required}]
+        parts += [dict(decl, required=[key])]
+    elif placement == "beside-allOf":       # allOf: [.., {properties}], required next to allOf
+        parts += [decl]
+        child["required"] = [key]
+    else:                                   # properties next to allOf, required in a part
+        child["properties"] = decl["properties"]
+        parts += [{"required": [key]}]
+    child["allOf"] = parts
+    sch = {"definitions": {"Base": {"type": "object", "properties": {"b": {"type": "integer"}}}, "Child": child}}
+    g = e2e.generate(json.dumps(sch), kind=kind, **parser_opts(PLAIN))
+    if not g.ok or kind == "msgspec.Struct":
+        return None
+    mod, err = e2e.load_module(g.text, kind)
+    if err:
+        return None
+    try:
+        make, get = make_api(kind, mod, "Child")
+        try:
+            make({key: 1})
+        except Exception:  # noqa: BLE001
+            return None  # the member cannot be supplied under its wire name at all (C03 / C07 territory)
+        try:
+            make({})
+        except Exception:  # noqa: BLE001
+            return None
+        return f"member {key!r} is required by the composition ({placement}{', with a $ref base' if with_base else ''}) but omitting it is accepted"
+    finally:
+        e2e.unload(mod)
+
+
+NEAR_DEFAULTS = [(["name", "date"], ["date", "name"]), (None, ""), (0, False), (1, True), (1, 1.0), ("", []), ({}, []), ("a", "A"), ([1, [2, 3]], [1, [3, 2]])]
+
+
+def check_lookalike_defaults(kind, d1, d2, reuse):
+    """two inline objects of the same member name under two parents, the same in everything but one default"""
+    def settings(d):
+        t = {list: "array", str: "string", bool: "boolean", int: "integer", float: "number", dict: "object", type(None): "string"}[type(d)]
+        return {"type": "object", "properties": {"order": {"type": [t, "null"], "default": d}, "size": {"type": "integer"}}}
+    sch = {"definitions": {"Box": {"type": "object", "properties": {"settings": settings(d1)}, "required": ["settings"]},
+                           "Crate": {"type": "object", "properties": {"settings": settings(d2)}, "required": ["settings"]}}}
+    g = e2e.generate(json.dumps(sch), kind=kind, **({"reuse_model": True} if reuse else {}))
+    if not g.ok:
+        return None
+    mod, err = e2e.load_module(g.text, kind)
+    if err:
+        return None
+    try:
+        for owner, want in (("Box", d1), ("Crate", d2)):
+            make, get = make_api(kind, mod, owner)
+            try:
+                obj = make({"settings": {}})
+            except Exception:  # noqa: BLE001
+                return None
+            v = get(get(obj, "settings"), "order")
+            if v != want or type(v) is not type(want):
+                return f"{owner}.settings.order: omitted member reads {v!r}, the schema default is {want!r} (the other look-alike class has {d1 if owner == 'Crate' else d2!r})"
+        return None
+    finally:
+        e2e.unload(mod)
+
+
 def falsify(ctx):
     rng = ctx.rng("fals")
+    for kind in KINDS[:4]:
+        for key in ("first-name", "@type", "class", "_x", "plain"):
+            for with_base in (False, True):
+                for placement in ("separate-part", "same-part", "beside-allOf", "properties-beside"):
+                    ctx.count("eval_e2e")
+                    ctx.nontrivial(("required-part", kind, key, with_base, placement))
+                    why = check_required_part(kind, key, with_base, placement)
+                    if why:
+                        ctx.violation(f"required-part:{kind}:{key}:{with_base}:{placement}", f"{kind}: {why}",
+                                      {"required_part": [key, with_base, placement], "kind": kind, "why": why})
+    for kind in ("pydantic_v2.BaseModel", "pydantic.BaseModel", "dataclasses.dataclass"):
+        for d1, d2 in NEAR_DEFAULTS:
+            for a, b in ((d1, d2), (d2, d1)):
+                for reuse in (False, True):
+                    ctx.count("eval_e2e")
+                    ctx.nontrivial(("lookalike", kind, json.dumps([a, b]), reuse))
+                    why = check_lookalike_defaults(kind, a, b, reuse)
+                    if why:
+                        ctx.violation(f"lookalike:{kind}:{json.dumps([a, b])}:{reuse}", f"{kind} reuse_model={reuse}: {why}",
+                                      {"lookalike": [a, b, reuse], "kind": kind, "why": why})
     members_all, opts_all = list(all_members()), list(all_opts())
     cases = []
     for h in ctx.hints[:8]:
@@ -452,6 +544,10 @@ def falsify(ctx):
 
 def replay_finding(ctx, f):
     r = f["replay"]
+    if "required_part" in r:
+        return check_required_part(r["kind"], *r["required_part"]) is not None
+    if "lookalike" in r:
+        return check_lookalike_defaults(r["kind"], *r["lookalike"]) is not None
     return check_object(r["kind"], r["members"], r["opts"], r["defaults"]) is not None
 
 
@@ -463,6 +559,14 @@ def replay(ctx, payload):
         return 1 if why else 0
     if "inherited_required" in r:
         why = check_inherited_required(r["kind"], r["opts"], r["inherited_required"])
+        print("replay:", why or "no violation")
+        return 1 if why else 0
+    if "required_part" in r:
+        why = check_required_part(r["kind"], *r["required_part"])
+        print("replay:", why or "no violation")
+        return 1 if why else 0
+    if "lookalike" in r:
+        why = check_lookalike_defaults(r["kind"], *r["lookalike"])
         print("replay:", why or "no violation")
         return 1 if why else 0
     if "members" not in r:
